@@ -1,41 +1,112 @@
 """Facts for C18 (host / port / protocol validation, NetAddress / Service print-parse).
 
-Read from the CURRENT tree on every run:
+Everything that ties the Lean model to the code is obtained by RUNNING the real functions of the
+current tree (`aiorpcx.util` imported afresh), never from the shape of the source:
 
-* the three compiled regexes of `aiorpcx/util.py` in *linear normal form*, obtained from
-  `re._parser.parse(pattern, flags)`: sequence of class atoms (with the repeat bounds), `^`,
-  `$` (AT_END) vs `\\Z` (AT_END_STRING), one level of optional group;
-* the *effective* character class of every class atom under the pattern's flags, obtained by
-  asking the real engine about every code point 0..0x10FFFF (that is how the four non-ASCII
-  letters that `IGNORECASE` folds into `[a-z]` show up);
-* how each regex is applied (`match` / `fullmatch` / `search`), read from the call sites with `ast`;
-* the port interval and the host-name length limit as inclusive bounds (normal form of the
-  comparison chains), the `isinstance` type sets;
-* interpreter facts the model depends on: `str.isdigit` / `int()` digit tables and the
-  int-string digit limit;
-* fingerprints of every modelled function.
+* **position tables** (`tables`): for every context `(function, prefix, suffix)` of `CONTEXTS`
+  the outcome of the real function on `prefix + chr(c) + suffix` for EVERY code point
+  `c = 0..0x10FFFF`, run-length encoded.  From them the *effective* character class of every
+  position of a protocol name / host-name label / numeric label is read off (whatever way the
+  code decides it: one regex, several, a lower-cased copy, a hand-written loop), and the kind of
+  end anchoring (does a final newline slip through?).  The harness compares the same tables with
+  the Lean model and judges them with the property oracle, so every run is exhaustive over all
+  code points in every context.
+* **decision tables**: `validate_port` on every integer -2..65537 (accepted ones as intervals,
+  returned value = argument?), on `True`/`False`; `is_valid_hostname` on names of every total
+  length 0..260 with and without a trailing dot, on labels of every length 0..70 (plain and with
+  hyphens inside), on 0..3 trailing dots; `validate_protocol` on lengths 0..70 and 300.
+* **synthesis**: the parameters of the property's grammar that reproduce those tables (classes,
+  repeat bounds, anchor kinds, length limits, port interval) are rendered as the configuration
+  `Aiorpcx.Facts.C18.cfg` the theorems of `Aiorpcx/C18/Props.lean` talk about; where the tables do
+  not fit the family at all (`supported = false`) the reasons are listed.  A few small tables
+  (`hostTable`, `protoTable`, `portTable`) are rendered as data and proved equal to the model's
+  answers under `cfg` (`facts_*_table`).
+* interpreter facts the model depends on: `str.isdigit` / `int()` digit tables, the int-string
+  digit limit;
+* fingerprints (normalised AST hashes) of the anchored functions - they only decide how deep the
+  quick tier explores, never a verdict;
+* informational, fail-soft: the compiled regexes found as module globals in linear normal form
+  (`regexes`), used by the harness to compare the model's `re` semantics with the real engine.
+
+The position tables cost ~1.1 M calls per context; they are computed in a process pool and
+memoised under `.work/` keyed by the SHA-256 of every `aiorpcx/*.py` source file, the interpreter
+version and the context list, so an unchanged tree pays nothing.
 
 `python -m tools.facts.c18 --emit-digits` rewrites lean/Aiorpcx/C18/Digits.lean (the committed copy
 of the interpreter's digit tables used by the driver; `Props.lean` proves it equal to the table
 regenerated here on every run)."""
-import ast
+import glob
+import hashlib
+import ipaddress
+import json
 import os
 import re
 import sys
-from re import _parser, _compiler
-from re import _constants as K
+from multiprocessing import Pool
 
 from . import common
 
+try:                                    # private CPython modules: only for the informational part
+    from re import _parser, _compiler
+    from re import _constants as K
+except ImportError:                     # pragma: no cover
+    _parser = _compiler = K = None
+
 NCP = 0x110000
+VERIF = os.path.dirname(os.path.dirname(os.path.dirname(os.path.abspath(__file__))))
 MODELLED = ['PROTOCOL_REGEX', 'LABEL_REGEX', 'NUMERIC_REGEX',
             'is_valid_hostname', 'classify_host', 'validate_port', 'validate_protocol',
             '_split_address', 'NetAddress.__init__', 'NetAddress.__eq__',
             'NetAddress.from_string', 'NetAddress.__str__',
             'Service.__init__', 'Service.__eq__', 'Service.from_string', 'Service.__str__']
 
-_ALL = None
-_probe_cache = {}
+# name -> (function, prefix, suffix); the swept code point sits between prefix and suffix
+CONTEXTS = {
+    # protocol: first character, characters after it (middle / last), junk in front
+    'p_head': ('proto', '', 'cp'),
+    'p_head_long': ('proto', '', 'tcp'),
+    'p_second_last': ('proto', 't', ''),
+    'p_mid': ('proto', 't', 'p'),
+    'p_last': ('proto', 'tc', ''),
+    'p_last_long': ('proto', 'tcp', ''),
+    # host name: positions of a label that is not the last one
+    'h_first': ('host', '', 'b.com'),
+    'h_mid': ('host', 'a', 'b.com'),
+    'h_last': ('host', 'ab', '.com'),
+    'h_single': ('host', '', '.com'),
+    # positions of the last label (the all-digits rule lives here)
+    'h_tld_first': ('host', 'ex.', 'om'),
+    'h_tld_single': ('host', 'ex.', ''),
+    'h_tld_after_digit': ('host', 'ex.1', ''),
+    'h_tld_before_digit': ('host', 'ex.', '1'),
+    'h_trail': ('host', 'ex.com', ''),
+    'h_after_dot': ('host', 'ex.com.', ''),
+    'h_only': ('host', '', ''),
+    'h_before_newline': ('host', 'ex.c', 'm\n'),
+    # ports
+    'o_only': ('port', '', ''),
+    'o_first': ('port', '', '1'),
+    'o_last': ('port', '1', ''),
+    'o_mid': ('port', '1', '1'),
+    'o_fifth': ('port', '6553', ''),
+}
+# classify_host: swept by the harness only (`ip_address` makes these several times as expensive and
+# no parameter is read from them)
+CLASSIFY_CONTEXTS = {
+    'c_mid': ('classify', 'a', 'b.com'),
+    'c_trail': ('classify', 'ex.com', ''),
+    'c_octet': ('classify', '1.2.3.', ''),
+    'c_octet_first': ('classify', '', '.2.3.4'),
+    'c_v4_trail': ('classify', '1.2.3.4', ''),
+    'c_v6_trail': ('classify', '::', ''),
+    'c_v6_first': ('classify', '', '::1'),
+    'c_digit_trail': ('classify', '1', ''),
+}
+REFUSALS = ('ValueError', 'TypeError', 'ok_False')
+
+
+def enc(s):
+    return '.'.join(format(ord(c), 'x') for c in s) if s else '-'
 
 
 def to_ranges(cps):
@@ -48,6 +119,384 @@ def to_ranges(cps):
     return [list(r) for r in out]
 
 
+# ---------------------------------------------------------------- running the real functions
+def fmt_host(h):
+    if isinstance(h, ipaddress.IPv4Address):
+        return '4:' + str(h)
+    if isinstance(h, ipaddress.IPv6Address):
+        return '6:' + enc(str(h))
+    return 'N:' + enc(h)
+
+
+def outcome(util, fn, s):
+    """canonical outcome of one call (the driver's `sweep` operation prints the same text)"""
+    try:
+        if fn == 'host':
+            return 'ok_True' if util.is_valid_hostname(s) else 'ok_False'
+        if fn == 'proto':
+            return 'ok_' + enc(util.validate_protocol(s))
+        if fn == 'port':
+            return f'ok_{int(util.validate_port(s))}'
+        r = util.classify_host(s)
+        return 'N' if isinstance(r, str) and r == s else fmt_host(r)
+    except Exception as e:      # noqa: BLE001 - the class name is the observation
+        return type(e).__name__
+
+
+def _fast_outcome(util, fn):
+    """the same as `outcome(util, fn, .)` with the common paths inlined (25 M calls per run)"""
+    if fn == 'host':
+        f = util.is_valid_hostname
+
+        def go(s):
+            try:
+                return 'ok_True' if f(s) else 'ok_False'
+            except Exception as e:      # noqa: BLE001
+                return type(e).__name__
+        return go
+    if fn == 'proto':
+        f = util.validate_protocol
+
+        def go(s):
+            try:
+                r = f(s)
+            except ValueError:
+                return 'ValueError'
+            except Exception as e:      # noqa: BLE001
+                return type(e).__name__
+            return 'ok_' + enc(r)
+        return go
+    if fn == 'port':
+        f = util.validate_port
+
+        def go(s):
+            try:
+                r = f(s)
+            except ValueError:
+                return 'ValueError'
+            except Exception as e:      # noqa: BLE001
+                return type(e).__name__
+            return f'ok_{int(r)}'
+        return go
+    return lambda s: outcome(util, fn, s)
+
+
+def sweep_runs(util, fn, pre, suf, lo, hi):
+    """[[lo, hi, outcome], ...] covering lo..hi"""
+    go = _fast_outcome(util, fn)
+    runs = []
+    start, cur = lo, None
+    for cp in range(lo, hi + 1):
+        o = go(pre + chr(cp) + suf)
+        if o != cur:
+            if cur is not None:
+                runs.append([start, cp - 1, cur])
+            start, cur = cp, o
+    runs.append([start, hi, cur])
+    return runs
+
+
+def merge_runs(parts):
+    out = []
+    for runs in parts:
+        for lo, hi, o in runs:
+            if out and out[-1][2] == o and out[-1][1] == lo - 1:
+                out[-1][1] = hi
+            else:
+                out.append([lo, hi, o])
+    return out
+
+
+def rle_text(runs):
+    return ' '.join(f'{lo:x}-{hi:x}={o}' for lo, hi, o in runs)
+
+
+_UTIL = None
+
+
+def _job(a):
+    name, fn, pre, suf, lo, hi = a
+    return name, lo, sweep_runs(_UTIL, fn, pre, suf, lo, hi)
+
+
+def source_key(repo, contexts):
+    h = hashlib.sha256()
+    h.update(sys.version.encode())
+    h.update(json.dumps(sorted(contexts.items())).encode())
+    for p in sorted(glob.glob(os.path.join(repo, 'aiorpcx', '*.py'))):
+        h.update(os.path.basename(p).encode())
+        with open(p, 'rb') as f:
+            h.update(f.read())
+    return h.hexdigest()[:24]
+
+
+def compute_tables(repo, contexts=None, procs=None, memo=True):
+    """{context name: runs over every code point}, memoised on the source text"""
+    global _UTIL
+    contexts = CONTEXTS if contexts is None else contexts
+    key = source_key(repo, contexts)
+    path = os.path.join(VERIF, '.work', f'c18_tables_{key}.json')
+    if memo and os.path.exists(path):
+        try:
+            with open(path) as f:
+                got = json.load(f)
+            if set(got) == set(contexts):
+                os.utime(path)
+                return got
+        except (OSError, ValueError):
+            pass
+    _UTIL = common.fresh_import(repo, 'aiorpcx.util')
+    step = 0x22000
+    jobs = [(n, fn, pre, suf, lo, min(lo + step, NCP) - 1)
+            for n, (fn, pre, suf) in contexts.items() for lo in range(0, NCP, step)]
+    procs = procs or max(1, min(12, (os.cpu_count() or 2) - 4))
+    if procs > 1:
+        with Pool(procs) as pool:
+            outs = pool.map(_job, jobs, chunksize=2)
+    else:
+        outs = [_job(j) for j in jobs]
+    parts = {}
+    for name, lo, runs in outs:
+        parts.setdefault(name, []).append((lo, runs))
+    tables = {n: merge_runs([r for _, r in sorted(parts[n])]) for n in contexts}
+    if memo:
+        try:
+            os.makedirs(os.path.dirname(path), exist_ok=True)
+            tmp = f'{path}.{os.getpid()}'
+            with open(tmp, 'w') as f:
+                json.dump(tables, f)
+            os.replace(tmp, path)
+            old = sorted(glob.glob(os.path.join(VERIF, '.work', 'c18_tables_*.json')), key=os.path.getmtime)
+            for p in old[:-12]:
+                os.unlink(p)
+        except OSError:
+            pass
+    return tables
+
+
+def accepted(runs, limit=200000):
+    """code points the function accepted (anything that is not a refusal / exception)"""
+    out = []
+    for lo, hi, o in runs:
+        if o.startswith('ok_') and o != 'ok_False' or o == 'N' or o[:2] in ('4:', '6:', 'N:'):
+            out.extend(range(lo, min(hi, lo + limit) + 1))
+            if len(out) > limit:
+                break
+    return out
+
+
+# ---------------------------------------------------------------- how from_string splits its text
+class _Captured(Exception):
+    def __init__(self, host, port):
+        super().__init__()
+        self.parts = (host, port)
+
+
+def split_observe(util, text):
+    """(host part, port part) that `NetAddress.from_string(text)` hands to the constructor, seen
+    through the public API: a subclass whose __init__ records its arguments.  Falls back to the
+    module's splitter by name when from_string does not construct through `cls`; None when neither
+    shows it."""
+    probe = getattr(util, '_c18_split_probe', None)
+    if probe is None:
+        def __init__(self, host, port):
+            raise _Captured(host, port)
+        probe = type('SplitProbe', (util.NetAddress,), {'__init__': __init__})
+        util._c18_split_probe = probe
+    try:
+        probe.from_string(text)
+    except _Captured as c:
+        return c.parts
+    except Exception:       # noqa: BLE001
+        return None
+    f = getattr(util, '_split_address', None)
+    if f is not None:
+        try:
+            return f(text)
+        except Exception:   # noqa: BLE001
+            return None
+    return None
+
+
+SPLIT_ALPHABET = ['a', '1', '.', ':', '[', ']', '%', '/']
+SPLIT_EXTRA = ['[a]:1', '[::1]:80', '[a]b]:5', '[a]b', '[a]:', '[]:1', '[a]]:1', 'a:b:c', '[a:b]:c:d', '[[a]]:1',
+               'ex.com:80', '[fe80::1%]]:80', '[', ']', '[]', ']:1[']
+
+
+def split_table(util):
+    """the split of every string over the 8-symbol alphabet up to length 3 and of a few longer ones:
+    [[text, host part, port part], ...] (rows the code does not let us observe are left out)"""
+    import itertools
+    rows = []
+    texts = [''.join(t) for n in range(0, 4) for t in itertools.product(SPLIT_ALPHABET, repeat=n)] + SPLIT_EXTRA
+    for t in texts:
+        got = split_observe(util, t)
+        if got is not None and isinstance(got[0], str) and isinstance(got[1], str):
+            rows.append([t, got[0], got[1]])
+    return rows
+
+
+# ---------------------------------------------------------------- decision tables
+def name_of_length(n):
+    """a well-formed name of exactly n characters (labels of at most 63 `a`s)"""
+    s = ('a' * 63 + '.') * (n // 64 + 1)
+    s = s[:n]
+    if s.endswith('.'):
+        s = s[:-2] + '.a' if n >= 2 else 'a'
+    return s
+
+
+def int_ranges(vals):
+    out = []
+    for v in vals:
+        if out and out[-1][1] == v - 1:
+            out[-1][1] = v
+        else:
+            out.append([v, v])
+    return out
+
+
+def decision_tables(util):
+    d = {}
+    ivh = lambda s: outcome(util, 'host', s)            # noqa: E731
+    vp = lambda s: outcome(util, 'proto', s)            # noqa: E731
+    # total length, without / with one trailing dot
+    d['host_len'] = int_ranges([n for n in range(0, 261) if ivh(name_of_length(n)) == 'ok_True'])
+    d['host_len_dot'] = int_ranges([n for n in range(0, 261) if ivh(name_of_length(n) + '.') == 'ok_True'])
+    # label length: plain, with hyphens inside, as last label
+    d['label_len'] = int_ranges([n for n in range(0, 71) if ivh('a' * n + '.com') == 'ok_True'])
+    d['label_len_hyphen'] = int_ranges([n for n in range(2, 71) if ivh('a' + '-' * (n - 2) + 'a.com') == 'ok_True'])
+    d['label_len_last'] = int_ranges([n for n in range(1, 71) if ivh('ex.' + 'a' * n) == 'ok_True'])
+    d['trailing_dots'] = [ivh('ex.com' + '.' * k) == 'ok_True' for k in range(4)]
+    d['proto_len'] = int_ranges([n for n in range(0, 71) if vp('t' * n).startswith('ok_')])
+    d['proto_len_plus'] = int_ranges([n for n in range(1, 71) if vp('t' + '+' * (n - 1)).startswith('ok_')])
+    d['proto_long'] = vp('t' * 300).startswith('ok_') and vp('t' + '.' * 5000).startswith('ok_')
+    d['numeric_newline'] = ivh('ex.1\n')
+    # ports: every integer of the grid; accepted ones must come back unchanged
+    acc, same = [], True
+    for n in range(-2, 65538):
+        o = outcome(util, 'port', n)
+        if o.startswith('ok_'):
+            acc.append(n)
+            same = same and o == f'ok_{n}'
+    d['port_ints'] = int_ranges(acc)
+    d['port_value_is_argument'] = same
+    d['port_bool'] = [outcome(util, 'port', False), outcome(util, 'port', True)]
+    # small tables rendered as data for the `facts_*_table` theorems
+    hosts = ['', '.', '..', 'a', 'a.', 'a..', '.a', 'a..b', 'a.b', 'a.b.', '1', 'a.1', 'a.1.', '1.a', 'a.1a',
+             'a.a1', '-', 'a-', '-a', 'a-a', 'a.-a', 'a-.a', 'a_', '_', 'a b', 'a\n', 'a.b\n', 'a\n.b',
+             'A.Z', 'ex.com', 'EX.COM.', 'xn--a.com', 'a.b.c.d.e', '1.2.3.4', '1.2.3.4a', 'é.com', 'a.٣']
+    d['host_table'] = [[s, ivh(s)] for s in hosts]
+    protos = ['', 't', 'tc', 'tcp', 'TCP', 'Tc', 't+', 't-', 't.', 't1', '1t', '+t', 't,p', 't p', 'tcp\n',
+              't\np', '\ntcp', ' tcp', 'tcp ', 't_p', 't/p', 'tép', 'a+-.9Z']
+    d['proto_table'] = [[s, vp(s)] for s in protos]
+    ports = ['', '0', '1', '01', '080', '65535', '65536', '065535', '99999', '-1', '+1', ' 1', '1 ', '1\n',
+             '1_0', '1.0', '1e1', '0x1', '٣', '٣０', '²', '1²', 'x', '00000000000000000001']
+    d['port_table'] = [[s, outcome(util, 'port', s)] for s in ports]
+    return d
+
+
+# ---------------------------------------------------------------- synthesis
+def _single(ranges):
+    return ranges[0] if len(ranges) == 1 else None
+
+
+def synthesise(tables, dt):
+    """parameters of the property's grammar that reproduce the tables; `why`: what does not fit"""
+    why = []
+    A = {n: set(accepted(r)) for n, r in tables.items() if CONTEXTS.get(n, ('',))[0] in ('proto', 'host')}
+    rng = lambda s: to_ranges(sorted(s))          # noqa: E731
+
+    def same(a, b, what):
+        if A[a] != A[b]:
+            diff = sorted(A[a] ^ A[b])[:4]
+            why.append(f'{what}: contexts {a} and {b} differ on code points {[hex(x) for x in diff]}')
+
+    NL = 10
+    p = {}
+    # ---- protocol: head class, tail class, repeat bounds, end anchoring
+    p['proto_head'] = rng(A['p_head'])
+    same('p_head', 'p_head_long', 'protocol first character depends on what follows')
+    mid = A['p_mid']
+    p['proto_tail'] = rng(mid)
+    last = A['p_last']
+    if last == mid:
+        p['proto_eos'] = 'bigZ'
+    elif last == mid | {NL} and NL not in mid:
+        p['proto_eos'] = 'dollar'
+    else:
+        p['proto_eos'] = 'bigZ'
+        why.append('protocol: the class of the last character is neither the class of the middle ones '
+                   'nor that class plus a final newline')
+    if A['p_last_long'] != last:
+        why.append('protocol: last-character class depends on the length')
+    pl = _single(dt['proto_len'])
+    if pl is None or dt['proto_len'] != dt['proto_len_plus'] or pl[0] < 1:
+        why.append(f'protocol lengths accepted: {dt["proto_len"]} / {dt["proto_len_plus"]}')
+        pl = [2, 70]
+    p['proto_tail_min'] = pl[0] - 1
+    p['proto_tail_max'] = None if pl[1] == 70 and dt['proto_long'] else pl[1] - 1
+    if A['p_second_last'] != (mid if p['proto_tail_min'] <= 1 else set()):
+        why.append('protocol: two-character names do not follow from the tail class and the minimum length')
+    # ---- label: first / middle / last class, length, end anchoring
+    DOT = 46
+    first, lmid, llast, single = A['h_first'], A['h_mid'] - {DOT}, A['h_last'], A['h_single']
+    if DOT not in A['h_mid']:
+        why.append('host name: "a.b.com" is refused')
+    p['label_first'], p['label_mid'], p['label_last'] = rng(first), rng(lmid), rng(llast)
+    if single != first:
+        why.append('label: the class of a one-character label differs from the first-character class')
+    ll = _single(dt['label_len'])
+    if ll is None or ll[0] != 1 or dt['label_len_hyphen'] != [[2, ll[1]]] or dt['label_len_last'] != [ll]:
+        why.append(f'label lengths accepted: {dt["label_len"]} / {dt["label_len_hyphen"]} / {dt["label_len_last"]}')
+        ll = [1, 63]
+    p['label_mid_max'] = max(0, ll[1] - 2)
+    trail = A['h_trail']
+    p['label_eos'] = 'dollar' if NL in trail else 'bigZ'
+    if trail - {NL} != llast | {46}:
+        why.append('host name: the class of a character appended to a name is not the last-character class plus "."')
+    if A['h_after_dot'] != A['h_tld_single']:
+        why.append('host name: "ex.com." + c is decided differently from "ex." + c')
+    if A['h_before_newline']:
+        why.append('host name: a name with a final newline is accepted')
+    same('h_tld_first', 'h_first', 'label first-character class depends on the label position')
+    # ---- numeric rule on the last label
+    numeric = single - A['h_tld_single']
+    p['numeric'] = rng(numeric)
+    if A['h_tld_single'] - single:
+        why.append('host name: a one-character last label is accepted that is refused elsewhere')
+    if A['h_tld_after_digit'] != llast - numeric:
+        why.append('host name: "ex.1" + c is not decided by the last-character class minus the numeric class')
+    if A['h_tld_before_digit'] != first - numeric:
+        why.append('host name: "ex." + c + "1" is not decided by the first-character class minus the numeric class')
+    if A['h_only'] != A['h_tld_single']:
+        why.append('host name: a one-character name is decided differently from a one-character last label')
+    # with an exact label anchor the numeric anchor is unobservable ("ex.1\n" is refused either way)
+    p['numeric_eos'] = 'dollar' if p['label_eos'] == 'dollar' and dt['numeric_newline'] == 'ok_False' else 'bigZ'
+    # ---- bounds
+    hl = _single(dt['host_len'])
+    if hl is None or hl[0] != 1 or dt['host_len_dot'] != [hl]:
+        why.append(f'host-name lengths accepted: {dt["host_len"]} without, {dt["host_len_dot"]} with a trailing dot')
+        hl = [1, hl[1] if hl else 0]
+    p['host_max_len'] = hl[1]
+    if dt['trailing_dots'] != [True, True, False, False]:
+        why.append(f'trailing dots 0..3 accepted: {dt["trailing_dots"]}')
+    pi = _single(dt['port_ints'])
+    if pi is None:
+        why.append(f'integer ports accepted: {dt["port_ints"]}')
+        pi = [0, -1]
+    p['port_lo'], p['port_hi'] = pi
+    if not dt['port_value_is_argument']:
+        why.append('validate_port returns something else than the integer it was given')
+    p['why'] = why
+    return p
+
+
+# ---------------------------------------------------------------- informational: regex normal forms
+_probe_cache = {}
+_ALL = None
+
+
 def effective_class(node, flags):
     """Code points the real engine accepts for the one-character node `node` compiled under
     `flags` - every code point is put to `fullmatch` individually."""
@@ -56,14 +505,12 @@ def effective_class(node, flags):
     if key in _probe_cache:
         return _probe_cache[key]
     if _ALL is None:
-        _ALL = [chr(i) for i in range(NCP)]
+        _ALL = ''.join(map(chr, range(NCP)))
     st = _parser.State()
     st.flags = flags
     st.str = ''
-    sp = _parser.SubPattern(st, [node])
-    fm = _compiler.compile(sp, flags).fullmatch
-    got = [i for i, ch in enumerate(_ALL) if fm(ch)]
-    _probe_cache[key] = to_ranges(got)
+    pat = _compiler.compile(_parser.SubPattern(st, [node]), flags)
+    _probe_cache[key] = to_ranges([ord(x) for x in pat.findall(_ALL)])
     return _probe_cache[key]
 
 
@@ -71,21 +518,19 @@ class Unsupported(Exception):
     pass
 
 
-_CHAR_NODES = (K.IN, K.LITERAL, K.NOT_LITERAL, K.ANY)
-
-
 def _atoms(nodes, flags, classes, allow_group):
     """parsed nodes -> list of atoms / items in normal form"""
+    char_nodes = (K.IN, K.LITERAL, K.NOT_LITERAL, K.ANY)
     out = []
     for op, av in nodes:
-        if op in _CHAR_NODES:
+        if op in char_nodes:
             classes.append(effective_class((op, av), flags))
             out.append(['cls', len(classes) - 1, 1, 1])
         elif op in (K.MAX_REPEAT, K.MIN_REPEAT):
             lo, hi, body = av
             body = list(body)
             hi = None if hi == K.MAXREPEAT else int(hi)
-            if len(body) == 1 and body[0][0] in _CHAR_NODES:
+            if len(body) == 1 and body[0][0] in char_nodes:
                 classes.append(effective_class(body[0], flags))
                 out.append(['cls', len(classes) - 1, int(lo), hi])
             elif allow_group and lo == 0 and hi == 1:
@@ -123,87 +568,22 @@ def linear_form(pattern, flags):
         eff = p.state.flags
         classes = []
         items = _atoms(list(p), eff, classes, True)
-        return {'items': items, 'classes': classes, 'flags': int(eff), 'pattern': pattern,
-                'raw_items': [list(i) for i in items]}
-    except (Unsupported, re.error, RecursionError) as e:
+        return {'items': items, 'classes': classes, 'flags': int(eff), 'pattern': pattern}
+    except Exception as e:      # noqa: BLE001 - informational only
         return {'unsupported': f'{type(e).__name__}: {e}', 'pattern': pattern}
 
 
-def normalise(form, mode):
-    """Normal form *under the way the pattern is applied*: with `match` / `fullmatch` the attempt
-    starts at position 0, so a leading `^` is redundant and is dropped; with `fullmatch` the
-    pattern must end at the end of the string, so a missing end anchor is made explicit as `\\Z`.
-    (`raw_items` keeps the unnormalised sequence; the harness compares both with the engine.)"""
-    if 'items' not in form:
-        return form
-    items = [list(i) for i in form['raw_items']]
-    if mode in ('match', 'fullmatch'):
-        while items and items[0] == ['bos']:
-            items.pop(0)
-    if mode == 'fullmatch' and not (items and items[-1][0] == 'eos'):
-        items.append(['eos', 'bigZ'])
-    form['items'] = items
-    return form
-
-
-# ---------------------------------------------------------------- call sites (ast)
-def regex_uses(func_node, regex_names):
-    """[(regex global name, method)] in source order: `re.<m>(NAME, x)` or `NAME.<m>(x)`"""
-    uses = []
-    for n in ast.walk(func_node):
-        if not isinstance(n, ast.Call) or not isinstance(n.func, ast.Attribute):
-            continue
-        f = n.func
-        if isinstance(f.value, ast.Name) and f.value.id == 're' and n.args \
-                and isinstance(n.args[0], ast.Name) and n.args[0].id in regex_names:
-            uses.append((n.lineno, n.col_offset, n.args[0].id, f.attr))
-        elif isinstance(f.value, ast.Name) and f.value.id in regex_names:
-            uses.append((n.lineno, n.col_offset, f.value.id, f.attr))
-    uses.sort()
-    return [(u[2], u[3]) for u in uses]
-
-
-def _const(n):
-    if isinstance(n, ast.Constant) and type(n.value) is int:
-        return n.value
-    if isinstance(n, ast.UnaryOp) and isinstance(n.op, ast.USub) and isinstance(n.operand, ast.Constant) \
-            and type(n.operand.value) is int:
-        return -n.operand.value
-    return None
-
-
-def interval(func_node, is_subject):
-    """Inclusive [lo, hi] implied by the comparison chains between `subject` and integer
-    constants in the function (None where no bound is found)."""
-    lo = hi = None
-    for n in ast.walk(func_node):
-        if not isinstance(n, ast.Compare):
-            continue
-        terms = [n.left] + list(n.comparators)
-        for left, op, right in zip(terms, n.ops, terms[1:]):
-            cl, cr = _const(left), _const(right)
-            if cl is not None and is_subject(right):
-                if isinstance(op, ast.Lt): lo = cl + 1
-                elif isinstance(op, ast.LtE): lo = cl
-                elif isinstance(op, ast.Gt): hi = cl - 1
-                elif isinstance(op, ast.GtE): hi = cl
-            elif cr is not None and is_subject(left):
-                if isinstance(op, ast.Lt): hi = cr - 1
-                elif isinstance(op, ast.LtE): hi = cr
-                elif isinstance(op, ast.Gt): lo = cr + 1
-                elif isinstance(op, ast.GtE): lo = cr
-    return lo, hi
-
-
-def isinstance_types(func_node, subject):
-    out = set()
-    for n in ast.walk(func_node):
-        if isinstance(n, ast.Call) and isinstance(n.func, ast.Name) and n.func.id == 'isinstance' \
-                and len(n.args) == 2 and isinstance(n.args[0], ast.Name) and n.args[0].id == subject:
-            t = n.args[1]
-            for e in (t.elts if isinstance(t, ast.Tuple) else [t]):
-                out.add(e.id if isinstance(e, ast.Name) else ast.dump(e))
-    return sorted(out)
+def module_regexes(util):
+    """every compiled pattern bound to a module global, in linear normal form where possible"""
+    out = {}
+    if _parser is None:
+        return out
+    for k, v in sorted(vars(util).items()):
+        if isinstance(v, re.Pattern) and isinstance(v.pattern, str):
+            form = linear_form(v.pattern, v.flags)
+            form['name'] = k
+            out[k] = form
+    return out
 
 
 # ---------------------------------------------------------------- interpreter digit tables
@@ -230,57 +610,30 @@ def digit_tables():
 # ---------------------------------------------------------------- extract
 def extract(repo):
     util = common.fresh_import(repo, 'aiorpcx.util')
-    tree = common.parse(repo, 'aiorpcx/util.py')
-    regex_names = [k for k, v in vars(util).items() if isinstance(v, re.Pattern)]
-    facts = {'regex_names': sorted(regex_names)}
-
-    def role(func, idx, nuses):
-        node = common.find(tree, func)
-        uses = regex_uses(node, regex_names) if node is not None else []
-        if len(uses) != nuses:
-            return {'unsupported': f'{func}: expected {nuses} regex application(s), found {uses}'}
-        name, method = uses[idx]
-        pat = getattr(util, name)
-        form = linear_form(pat.pattern, pat.flags)
-        form['name'] = name
-        form['mode'] = method
-        normalise(form, method)
-        form['applied_in'] = func
-        if method not in ('match', 'fullmatch', 'search') and 'unsupported' not in form:
-            form['unsupported'] = f'applied with .{method}'
-        return form
-
-    facts['protocol'] = role('validate_protocol', 0, 1)
-    # is_valid_hostname: first application = "last label all numeric" test, second = label test
-    facts['numeric'] = role('is_valid_hostname', 0, 2)
-    facts['label'] = role('is_valid_hostname', 1, 2)
-
-    vp = common.find(tree, 'validate_port')
-    lo, hi = interval(vp, lambda n: isinstance(n, ast.Name) and n.id == 'port') if vp else (None, None)
-    facts['port_lo'], facts['port_hi'] = lo, hi
-    facts['port_types'] = isinstance_types(vp, 'port') if vp else []
-    ivh = common.find(tree, 'is_valid_hostname')
-    _lo, mx = interval(ivh, lambda n: isinstance(n, ast.Call) and isinstance(n.func, ast.Name)
-                       and n.func.id == 'len') if ivh else (None, None)
-    # `len(h) > 253` is the *refusal* test: the accepted lengths are <= 253
-    facts['host_max_len'] = None
-    if ivh is not None:
-        for n in ast.walk(ivh):
-            if isinstance(n, ast.Compare) and len(n.ops) == 1 and isinstance(n.left, ast.Call) \
-                    and isinstance(n.left.func, ast.Name) and n.left.func.id == 'len':
-                c = _const(n.comparators[0])
-                if c is not None and isinstance(n.ops[0], ast.Gt):
-                    facts['host_max_len'] = c
-                elif c is not None and isinstance(n.ops[0], ast.GtE):
-                    facts['host_max_len'] = c - 1
-    facts['hostname_types'] = isinstance_types(ivh, 'hostname') if ivh else []
+    facts = {'contexts': {k: list(v) for k, v in CONTEXTS.items()},
+             'source_key': source_key(repo, CONTEXTS)}
+    facts['tables'] = compute_tables(repo)
+    facts['decisions'] = decision_tables(util)
+    try:
+        facts['split_table'] = split_table(util)
+    except Exception as e:      # noqa: BLE001 - degrade: the harness compares the splitter anyway
+        facts['split_table'] = []
+        facts['split_table_error'] = f'{type(e).__name__}: {e}'
+    facts['params'] = synthesise(facts['tables'], facts['decisions'])
+    try:
+        facts['regexes'] = module_regexes(util)
+    except Exception as e:      # noqa: BLE001 - informational only
+        facts['regexes'] = {}
+        facts['regexes_error'] = f'{type(e).__name__}: {e}'
     facts['max_str_digits'] = sys.get_int_max_str_digits()
     runs, only = digit_tables()
     facts['decimal_runs'] = runs
     facts['digit_only'] = only
-    facts['fingerprints'] = common.fingerprints(repo, {'aiorpcx/util.py': MODELLED})
-    facts['supported'] = all('unsupported' not in facts[r] for r in ('protocol', 'label', 'numeric')) \
-        and None not in (lo, hi, facts['host_max_len'])
+    try:
+        facts['fingerprints'] = common.fingerprints(repo, {'aiorpcx/util.py': MODELLED})
+    except Exception as e:      # noqa: BLE001 - unparsable source: the import above would have failed
+        facts['fingerprints'] = {'error': f'{type(e).__name__}: {e}'}
+    facts['supported'] = not facts['params']['why']
     return facts
 
 
@@ -289,40 +642,8 @@ def lean_cls(rs):
     return '[' + ', '.join(f'({a}, {b})' for a, b in rs) + ']'
 
 
-def lean_atom(a, prefix):
-    if a[0] == 'cls':
-        mx = 'none' if a[3] is None else f'(some {a[3]})'
-        return f'.cls {prefix}_c{a[1]} {a[2]} {mx}'
-    if a[0] == 'bos':
-        return '.bos'
-    return f'.eos .{a[1]}'
-
-
 def _doc(text):
     return text.replace('-/', '- /').replace('/-', '/ -')
-
-
-def lean_regex(form, prefix):
-    lines = []
-    if 'unsupported' in form:
-        lines.append('/-- NOT in the modelled fragment: ' + _doc(repr(form['unsupported'])) + ' -/')
-        lines.append(f'def {prefix}Rx : LinearRegex := []')
-        lines.append(f'def {prefix}Mode : Mode := .match')
-        return lines
-    for i, c in enumerate(form['classes']):
-        lines.append(f'def {prefix}_c{i} : Cls := {lean_cls(c)}')
-    items = []
-    for it in form['items']:
-        if it[0] == 'opt':
-            items.append('.opt [' + ', '.join(lean_atom(a, prefix) for a in it[1]) + ']')
-        else:
-            items.append('.atom (' + lean_atom(it, prefix) + ')')
-    lines.append('/-- ' + _doc(f'`{form["name"]}` = {form["pattern"]!r}, flags {form["flags"]}, '
-                                f'applied with `{form["mode"]}` in `{form["applied_in"]}`') + ' -/')
-    lines.append(f'def {prefix}Rx : LinearRegex := [' + ', '.join(items) + ']')
-    mode = {'match': '.match', 'fullmatch': '.fullmatch', 'search': '.search'}[form['mode']]
-    lines.append(f'def {prefix}Mode : Mode := {mode}')
-    return lines
 
 
 def lean_runs(runs):
@@ -333,34 +654,95 @@ def lean_int(n):
     return f'({n})' if n is not None and n < 0 else ('0' if n is None else str(n))
 
 
+def lean_str(s):
+    return '[' + ', '.join(str(ord(c)) for c in s) + ']'
+
+
+def lean_opt(n):
+    return 'none' if n is None else f'(some {n})'
+
+
+def lean_pairs(rs):
+    return '[' + ', '.join(f'({lean_int(a)}, {lean_int(b)})' for a, b in rs) + ']'
+
+
+def lean_string_lit(s):
+    return '"' + s.replace('\\', '\\\\').replace('"', '\\"') + '"'
+
+
 def render(f):
+    p, d = f['params'], f['decisions']
     L = ['import Aiorpcx.C18.Model',
-         '/-! GENERATED by tools/facts/c18.py from /repo on every run - do not edit. -/',
+         '/-! GENERATED by tools/facts/c18.py by RUNNING the functions of /repo on every run - do not edit. -/',
          'namespace Aiorpcx.Facts.C18',
          'open Aiorpcx.C18',
-         '/-- every regex is inside the modelled fragment and every bound was found -/',
-         f'def supported : Bool := {"true" if f["supported"] else "false"}']
-    for r in ('protocol', 'label', 'numeric'):
-        L += lean_regex(f[r], r)
-    L += [f'/-- accepted ports: portLo ≤ p ≤ portHi (normal form of the comparison chain in `validate_port`) -/',
-          f'def portLo : Int := {lean_int(f["port_lo"])}',
-          f'def portHi : Int := {lean_int(f["port_hi"])}',
-          f'/-- `isinstance(port, …)` type names in `validate_port` -/',
-          'def portTypes : List String := [' + ', '.join(f'"{t}"' for t in f['port_types']) + ']',
-          'def hostnameTypes : List String := [' + ', '.join(f'"{t}"' for t in f['hostname_types']) + ']',
-          f'/-- longest accepted host name (after removing one trailing dot) -/',
-          f'def hostMaxLen : Nat := {lean_int(f["host_max_len"])}',
-          f'/-- `sys.get_int_max_str_digits()` of the interpreter running the code (0 = no limit) -/',
-          f'def maxStrDigits : Nat := {f["max_str_digits"]}',
-          'def cfg : Cfg :=',
-          '  { protocol := ⟨protocolRx, protocolMode⟩, label := ⟨labelRx, labelMode⟩,',
-          '    numeric := ⟨numericRx, numericMode⟩, hostMaxLen := hostMaxLen,',
-          '    portLo := portLo, portHi := portHi, maxStrDigits := maxStrDigits }',
-          '/-- interpreter: runs of code points `int()` reads as decimal digits (lo, hi, value of lo) -/',
-          f'def decimalRuns : List (Nat × Nat × Nat) := {lean_runs(f["decimal_runs"])}',
-          '/-- interpreter: `str.isdigit()` is true but `int()` raises ValueError -/',
-          f'def digitOnly : Cls := {lean_cls(f["digit_only"])}',
-          'end Aiorpcx.Facts.C18', '']
+         '/-- the observed behaviour fits the family of the property\'s grammar (classes per position,',
+         '    repeat bounds, anchor kind, length limits, one port interval) -/',
+         f'def supported : Bool := {"true" if f["supported"] else "false"}',
+         '/-- what did not fit (empty when `supported`) -/',
+         'def unsupportedWhy : List String := [' + ', '.join(lean_string_lit(w) for w in p['why']) + ']',
+         '/-- protocol: code points accepted as first character (`c ++ "cp"`, every c) -/',
+         f'def protocol_c0 : Cls := {lean_cls(p["proto_head"])}',
+         '/-- protocol: code points accepted after the first character (`"t" ++ c ++ "p"`) -/',
+         f'def protocol_c1 : Cls := {lean_cls(p["proto_tail"])}',
+         f'def protocolTailMin : Nat := {p["proto_tail_min"]}',
+         f'def protocolTailMax : Option Nat := {lean_opt(p["proto_tail_max"])}',
+         '/-- `.dollar`: a final newline slips through (`"tc\\n"` accepted) -/',
+         f'def protocolEos : EndKind := .{p["proto_eos"]}',
+         'def protocolRx : LinearRegex :=',
+         '  [.atom (.cls protocol_c0 1 (some 1)), .atom (.cls protocol_c1 protocolTailMin protocolTailMax),',
+         '   .atom (.eos protocolEos)]',
+         '/-- label: first character of a longer label / middle / last / how many middle ones at most -/',
+         f'def label_c0 : Cls := {lean_cls(p["label_first"])}',
+         f'def label_c1 : Cls := {lean_cls(p["label_mid"])}',
+         f'def label_c2 : Cls := {lean_cls(p["label_last"])}',
+         f'def labelMidMax : Nat := {p["label_mid_max"]}',
+         f'def labelEos : EndKind := .{p["label_eos"]}',
+         'def labelRx : LinearRegex :=',
+         '  [.atom (.cls label_c0 1 (some 1)),',
+         '   .opt [.cls label_c1 0 (some labelMidMax), .cls label_c2 1 (some 1)], .atom (.eos labelEos)]',
+         '/-- one-character labels accepted in front but refused as the last label -/',
+         f'def numeric_c0 : Cls := {lean_cls(p["numeric"])}',
+         f'def numericEos : EndKind := .{p["numeric_eos"]}',
+         'def numericRx : LinearRegex := [.atom (.cls numeric_c0 1 none), .atom (.eos numericEos)]',
+         '/-- integers of the grid -2..65537 that `validate_port` accepted, as intervals -/',
+         f'def portIntervals : List (Int × Int) := {lean_pairs(d["port_ints"])}',
+         f'def portValueIsArgument : Bool := {"true" if d["port_value_is_argument"] else "false"}',
+         f'def portLo : Int := {lean_int(p["port_lo"])}',
+         f'def portHi : Int := {lean_int(p["port_hi"])}',
+         '/-- total lengths 0..260 accepted without / with one trailing dot (well-formed names) -/',
+         f'def hostLengths : List (Int × Int) := {lean_pairs(d["host_len"])}',
+         f'def hostLengthsDot : List (Int × Int) := {lean_pairs(d["host_len_dot"])}',
+         f'def labelLengths : List (Int × Int) := {lean_pairs(d["label_len"])}',
+         '/-- `"ex.com"` followed by 0, 1, 2, 3 dots -/',
+         'def trailingDots : List Bool := [' + ', '.join('true' if b else 'false' for b in d['trailing_dots']) + ']',
+         f'def hostMaxLen : Nat := {lean_int(p["host_max_len"])}',
+         '/-- `sys.get_int_max_str_digits()` of the interpreter running the code (0 = no limit) -/',
+         f'def maxStrDigits : Nat := {f["max_str_digits"]}',
+         'def cfg : Cfg :=',
+         '  { protocol := ⟨protocolRx, .match⟩, label := ⟨labelRx, .match⟩,',
+         '    numeric := ⟨numericRx, .match⟩, hostMaxLen := hostMaxLen,',
+         '    portLo := portLo, portHi := portHi, maxStrDigits := maxStrDigits }',
+         '/-- the real `is_valid_hostname` on hand-picked strings -/',
+         'def hostTable : List (Str × Bool) := [' + ', '.join(
+             f'({lean_str(s)}, {"true" if o == "ok_True" else "false"})' for s, o in d['host_table']
+             if o in ('ok_True', 'ok_False')) + ']',
+         '/-- the real `validate_protocol`: accepted? -/',
+         'def protoTable : List (Str × Bool) := [' + ', '.join(
+             f'({lean_str(s)}, {"true" if o.startswith("ok_") else "false"})' for s, o in d['proto_table']) + ']',
+         '/-- the real `validate_port` on strings: returned integer, or none when it raised -/',
+         'def portTable : List (Str × Option Int) := [' + ', '.join(
+             f'({lean_str(s)}, {"some " + o[3:] if o.startswith("ok_") else "none"})' for s, o in d['port_table']) + ']',
+         '/-- what `NetAddress.from_string(text)` hands to the constructor as (host, port) - every text over',
+         '    {a 1 . : [ ] % /} up to length 3 and some longer ones, observed through a recording subclass -/',
+         f'def splitRows : Nat := {len(f.get("split_table", []))}',
+         'def splitTable : List (Str × Str × Str) := [' + ', '.join(
+             f'({lean_str(t)}, {lean_str(h)}, {lean_str(q)})' for t, h, q in f.get('split_table', [])) + ']',
+         '/-- interpreter: runs of code points `int()` reads as decimal digits (lo, hi, value of lo) -/',
+         f'def decimalRuns : List (Nat × Nat × Nat) := {lean_runs(f["decimal_runs"])}',
+         '/-- interpreter: `str.isdigit()` is true but `int()` raises ValueError -/',
+         f'def digitOnly : Cls := {lean_cls(f["digit_only"])}',
+         'end Aiorpcx.Facts.C18', '']
     return '\n'.join(L)
 
 
@@ -382,12 +764,13 @@ if __name__ == '__main__':
     repo = os.environ.get('AIORPCX_REPO', '/repo')
     if '--emit-digits' in sys.argv:
         runs, only = digit_tables()
-        here = os.path.dirname(os.path.dirname(os.path.dirname(os.path.abspath(__file__))))
-        path = os.path.join(here, 'lean', 'Aiorpcx', 'C18', 'Digits.lean')
+        path = os.path.join(VERIF, 'lean', 'Aiorpcx', 'C18', 'Digits.lean')
         with open(path, 'w') as fh:
             fh.write(render_digits({'decimal_runs': runs, 'digit_only': only}))
         print('wrote', path, len(runs), 'decimal runs,', len(only), 'digit-only ranges')
     else:
-        import json
         fx = extract(repo)
-        print(json.dumps({k: v for k, v in fx.items() if k not in ('decimal_runs', 'digit_only')}, indent=1))
+        print(json.dumps({k: v for k, v in fx.items()
+                          if k not in ('decimal_runs', 'digit_only', 'tables', 'regexes', 'split_table', 'contexts')}, indent=1))
+        for k, v in fx['tables'].items():
+            print(k, len(v), 'runs')
